@@ -101,6 +101,69 @@ def match_recheck_rule(res, fx, rule='GUARD'):
                    'by clause and "conspire" — j*/k* with k*/j* select jeremy/jenny; a/x with b/*/y select b/x — so the Message reaches a session that owns no matching node')
 
 
+def clause_lookup_rules(res, fx, rule):
+    """The literal-lookup fast path of the traversal, judged per call site of DoDirectChildLookup (shared by C04, C05 and C06: subscriptions, routing and the removal of marks all use
+    this traversal, while marks are PLACED by pattern matching — the two must name the same nodes):
+      (a) between the pattern text and DataNode::GetChild() the clause is unescaped exactly once (splitter that drops escape characters / RemoveEscapeChars at the call / in the callee);
+      (b) the accumulator a clause is split into is empty when the splitting of an entry begins (no text carried over from the previous entry)."""
+    SRSq = 'muscle::StorageReflectSession'
+    NPM = r'^muscle::StorageReflectSession::NodePathMatcher::'
+    f = fx.fn1(SRSq + '::NodePathMatcher::DoTraversalAux')
+    g = fx.fn1(SRSq + '::NodePathMatcher::DoDirectChildLookup')
+    sites = [(g_, c) for g_ in IP.scope(fx, f, NPM) if g_ is not g for c in P.calls(g_, r'::DoDirectChildLookup$')]
+    if len(sites) < 2:
+        raise AnalysisBroken('%s: fewer than two DoDirectChildLookup call sites found' % rule)
+    is_unesc = lambda x: x.is_call() and (x.get('q') or '').endswith('RemoveEscapeChars')
+    kd = g.params[2]['d'] if len(g.params) > 2 else None
+    callee = 1 if any(is_unesc(x) and x.args() and A.strip_casts(x.args()[0]).get('d') == kd for c in P.calls(g, r'^muscle::DataNode::GetChild$') for x in (c.args()[0].walk() if c.args() else [])) else 0
+    for (g_, c) in sites:
+        if len(c.args()) < 3:
+            continue
+        arg = c.args()[2]
+        at_call = 1 if any(is_unesc(x) for x in arg.walk()) else 0
+        a2 = A.strip_casts(arg)
+        drops = 0
+        apps = []
+        if a2['k'] == 'DeclRefExpr' and a2.get('d') is not None:
+            apps = [x for x in g_.walk() if x['k'] == 'CXXOperatorCallExpr' and (x.get('q') or '').endswith('::operator+=') and len(x['ch']) > 2 and A.strip_casts(x['ch'][1]).get('d') == a2['d']]
+        if apps:
+            flags = set()
+            for v in g_.walk():
+                rhs = v['ch'][0] if v['k'] == 'VarDecl' and v['ch'] and 'bool' in v.type() else (v['ch'][1] if v['k'] == 'BinaryOperator' and v.get('op') == '=' and 'bool' in A.strip_casts(v['ch'][0]).type() else None)
+                if rhs is not None and any(x['k'] == 'BinaryOperator' and x.get('op') in ('==', '!=') and any(A.strip_casts(y).get('v') == 92 for y in x['ch']) for x in rhs.walk()):
+                    flags.add(v['d'] if v['k'] == 'VarDecl' else A.strip_casts(v['ch'][0]).get('d'))
+            keeps = False
+            for ap in apps:
+                if not any(A.bool_polarity(cn, t)[0]['k'] == 'DeclRefExpr' and A.bool_polarity(cn, t)[0].get('d') in flags and A.bool_polarity(cn, t)[1] is False for (cn, t) in G.atoms_at(g_, ap)):
+                    keeps = True
+            drops = 1 if (flags and not keeps) else 0
+        total = drops + at_call + callee
+        res.ob(rule, g_.where(c), 'traversal line %s: the clause is unescaped exactly once between the pattern and GetChild()' % c.get('l'), total == 1, function=g_.q,
+               key='%s|%s|lookup-unescape:%s' % (rule, g_.q, A.strip_casts(arg).text(24)), how='splitter drops escapes %d + at the call %d + in DoDirectChildLookup %d' % (drops, at_call, callee),
+               message='%s hands `%s` to DoDirectChildLookup() with %d unescaping step(s) between the pattern text and DataNode::GetChild() (splitter %d, at the call %d, in the callee %d): the node the '
+                       'fast path looks up is not the node the pattern matches (`take \\(1\\)` vs the node `take (1)`), so a traversal — which removes a departing session\'s marks, routes Messages and '
+                       'builds snapshots — disagrees with the per-node pattern matching that placed the marks' % (g_.q, A.strip_casts(arg).text(30), total, drops, at_call, callee))
+        if apps:
+            # (b) empty at the start of every entry: from the header of the loop that encloses the splitting loop, no append is reachable without passing a Clear()/assignment of the accumulator
+            d = a2['d']
+            clears = [x for x in g_.walk() if (x['k'] == 'CXXMemberCallExpr' and (x.get('q') or '').endswith('::Clear') and x.receiver() is not None and A.strip_casts(x.receiver()).get('d') == d)
+                      or (x['k'] == 'CXXOperatorCallExpr' and (x.get('q') or '').endswith('::operator=') and len(x['ch']) > 1 and A.strip_casts(x['ch'][1]).get('d') == d)
+                      or (x['k'] == 'VarDecl' and x.get('d') == d)]
+            loops = C.natural_loops(g_)
+            ap_blocks = set(P.pos_of(g_, ap)[0] for ap in apps if P.pos_of(g_, ap))
+            inner = [(h, body) for (h, body) in loops if ap_blocks & body]
+            inner.sort(key=lambda hb: len(hb[1]))
+            ok_fresh = True
+            hdr = None
+            if len(inner) >= 2:
+                hdr = inner[1][0]              # the loop over the entries (smallest loop strictly containing the character loop)
+                ok_fresh = not C.can_reach(g_, (hdr, 0), set(P.pos_of(g_, ap) for ap in apps if P.pos_of(g_, ap)), avoid_points=set(P.pos_of(g_, x) for x in clears if P.pos_of(g_, x)))
+            res.ob(rule, g_.where(apps[0]), 'traversal: the accumulator `%s` is empty when the splitting of an entry begins' % a2.get('n'), ok_fresh and hdr is not None, function=g_.q,
+                   key='%s|%s|accumulator-fresh:%s' % (rule, g_.q, a2.get('n')),
+                   message='%s can start splitting the clause of one entry with text of the previous entry still in `%s` (the last name of a comma list stays there after its lookup): for the subscriptions '
+                           '`a,b` and `c,d` sent in one Message the fast path looks up `bc` instead of `c`, so the initial snapshot misses a matching node' % (g_.q, a2.get('n')))
+
+
 def run(res, tier):
     fx = common.load_units(res, ['reflector/StorageReflectSession.cpp', 'reflector/DumbReflectSession.cpp', 'reflector/AbstractReflectSession.cpp'],
                            fn_regex=r'^muscle::(StorageReflectSession|DumbReflectSession|AbstractReflectSession)')
@@ -462,6 +525,7 @@ def run(res, tier):
                        '%s: the clause reaches GetChild() without being unescaped' % g_.q)
     if n_uo < 1:
         raise AnalysisBroken('UNIQUE-AGREE: no DoDirectChildLookup call with a locally split clause found (comma-list case)')
+    clause_lookup_rules(res, fx, 'UNIQUE-AGREE')
     # ---- ONCE (b): the de-duplication table of the direct-lookup traversal spans all patterns of the Message
     from msa import cfg as C_
     f = fx.fn1(SRS + '::NodePathMatcher::DoTraversalAux')
@@ -509,8 +573,13 @@ def run(res, tier):
            message='RemoveParameter: paramName is used at line %s after _parameters.RemoveName(paramName) (line %s); when the caller passes the field-name String that lives inside _parameters '
                    '(wildcard REMOVEPARAMETERS) the removal clears it, every later comparison fails and e.g. the reflect-to-self flag is never switched off' % ((bad[1].get('l'), bad[0].get('l')) if bad else ('?', '?')))
     from . import sm_state
-    fsm = common.load_units(res, ['regex/StringMatcher.cpp'], fn_regex=r'^muscle::StringMatcher::')
+    fsm = common.load_units(res, ['regex/StringMatcher.cpp'], fn_regex=r'^muscle::(StringMatcher::|RemoveEscapeChars$)')
     res.units = res.units + ['reflector/StorageReflectSession.cpp', 'reflector/DumbReflectSession.cpp', 'reflector/AbstractReflectSession.cpp']
+    # the direct-lookup fast path turns an escaped literal clause into a node name with RemoveEscapeChars(): its escape flag must have the parity the matcher's own scanners have
+    # (the rule is C15's ESCAPE-PARITY, judged here for the one function routing depends on)
+    from .C15 import escape_parity_scanners
+    if escape_parity_scanners(res, fsm, 'UNIQUE-AGREE', only=r'::RemoveEscapeChars$') < 1:
+        raise AnalysisBroken('UNIQUE-AGREE: the escape flag of RemoveEscapeChars was not found')
     sm_state.ranges_reset_rule(res, fsm)     # the per-clause matchers of a routing path are recycled objects: a stale numeric range misroutes every later Message
     res.explanation = ('Static decision of the routing structure: sender-identity overwrite dominates all three routing calls; on every path to a delivery either the target differs from the sender or the '
                        'reflect-to-self flag holds (path enumeration over the guard\'s short-circuit blocks); the routing callback always returns the session level so each session is hit once; the literal-lookup '
